@@ -617,4 +617,121 @@ theorem hullInterp_shift (c : Rat) (pts : List (Rat × Rat)) (mask : List Bool)
   simp only [Function.comp]
   exact interp1_shift c _ hne p.1
 
+/-! ### segments: `np.interp` over the whole mask is, on each segment, the interpolant of that segment -/
+
+/-- left of (or at) some sample of the first block, the samples of a second block do not matter -/
+theorem interp1_append_left (c1 c2 : List (Rat × Rat)) (hs : XInc (c1 ++ c2)) (x : Rat)
+    (hw : ∃ p ∈ c1, x ≤ p.1) : interp1 (c1 ++ c2) x = interp1 c1 x := by
+  induction c1 with
+  | nil => obtain ⟨p, hp, _⟩ := hw; cases hp
+  | cons p c1 ih =>
+    cases c1 with
+    | nil =>
+      obtain ⟨p', hp', hx⟩ := hw
+      simp only [List.mem_singleton] at hp'
+      subst hp'
+      rw [List.singleton_append, interp1_le_head p' c2 hs x hx]; simp [interp1]
+    | cons q r =>
+      have hs' : XInc ((q :: r) ++ c2) := List.Pairwise.of_cons hs
+      have hpq : p.1 < q.1 := List.rel_of_pairwise_cons hs (by simp)
+      show interp1 (p :: q :: (r ++ c2)) x = interp1 (p :: q :: r) x
+      rw [interp1_cons2, interp1_cons2]
+      by_cases h1 : x < q.1
+      · simp only [if_pos h1]
+      · simp only [if_neg h1]
+        apply ih hs'
+        obtain ⟨p', hp', hx⟩ := hw
+        rcases List.mem_cons.mp hp' with e | e
+        · subst e; exact absurd (lt_of_le_of_lt hx hpq) h1
+        · exact ⟨p', e, hx⟩
+
+/-- right of (or at) some sample of the second block, the samples of a first block do not matter -/
+theorem interp1_append_right (c1 c2 : List (Rat × Rat)) (hs : XInc (c1 ++ c2)) (x : Rat)
+    (hw : ∃ p ∈ c2, p.1 ≤ x) : interp1 (c1 ++ c2) x = interp1 c2 x := by
+  induction c1 with
+  | nil => rfl
+  | cons p c1 ih =>
+    have hs' : XInc (c1 ++ c2) := List.Pairwise.of_cons hs
+    obtain ⟨w, hw2, hwx⟩ := hw
+    cases hl : c1 ++ c2 with
+    | nil => rw [List.append_eq_nil_iff] at hl; rw [hl.2] at hw2; cases hw2
+    | cons q rest =>
+      have hq : q.1 ≤ x := by
+        have hwm : w ∈ q :: rest := by rw [← hl]; exact List.mem_append_right _ hw2
+        rcases List.mem_cons.mp hwm with e | e
+        · rw [← e]; exact hwx
+        · rw [hl] at hs'
+          exact le_trans (le_of_lt (List.rel_of_pairwise_cons hs' e)) hwx
+      show interp1 (p :: (c1 ++ c2)) x = interp1 c2 x
+      rw [hl, interp1_cons2, if_neg (not_lt.mpr hq), ← hl]
+      exact ih hs'
+
+theorem maskIdx_append (a b : Nat) (mA mB : List Bool) (hlen : mA.length = a) :
+    maskIdx (a + b) (mA ++ mB) = maskIdx a mA ++ (maskIdx b mB).map (a + ·) := by
+  unfold maskIdx
+  rw [List.range_add, List.filter_append, List.filter_map]
+  congr 1
+  · apply List.filter_congr
+    intro i hi
+    have : i < mA.length := by rw [hlen]; exact List.mem_range.mp hi
+    simp [List.getD_eq_getElem?_getD, List.getElem?_append_left this]
+  · congr 1
+    apply List.filter_congr
+    intro j _
+    simp [List.getD_eq_getElem?_getD, List.getElem?_append_right, hlen]
+
+theorem chainOf_append (A B : List (Rat × Rat)) (mA mB : List Bool) (hlen : mA.length = A.length) :
+    chainOf (A ++ B) (mA ++ mB) = chainOf A mA ++ chainOf B mB := by
+  unfold chainOf
+  rw [List.length_append, maskIdx_append _ _ _ _ hlen, List.map_append, List.map_map]
+  congr 1
+  · apply List.map_congr_left
+    intro i hi
+    have : i < A.length := maskIdx_lt hi
+    simp [List.getD_eq_getElem?_getD, List.getElem?_append_left this]
+  · apply List.map_congr_left
+    intro j _
+    simp [List.getD_eq_getElem?_getD, List.getElem?_append_right]
+
+/-- `rubberband(segments=…)`: when the last point of one segment and the first point of the next are both masked (they are
+hull vertices of their segments), `np.interp` over the whole mask is the concatenation of the per-segment interpolants -/
+theorem hullInterp_append (A B : List (Rat × Rat)) (mA mB : List Bool) (hx : XInc (A ++ B)) (hlen : mA.length = A.length)
+    (hA : 0 < A.length) (hlastA : mA.getD (A.length - 1) false = true)
+    (hB : 0 < B.length) (hfirstB : mB.getD 0 false = true) :
+    hullInterp (A ++ B) (mA ++ mB) = hullInterp A mA ++ hullInterp B mB := by
+  have hxA : XInc A := (List.pairwise_append.mp hx).1
+  have hxB : XInc B := (List.pairwise_append.mp hx).2.1
+  have hs : XInc (chainOf A mA ++ chainOf B mB) := by
+    rw [← chainOf_append A B mA mB hlen]; exact chainOf_xinc hx _
+  have hwA : A.getD (A.length - 1) (0, 0) ∈ chainOf A mA :=
+    List.mem_map.mpr ⟨A.length - 1, mem_maskIdx.mpr ⟨by omega, hlastA⟩, rfl⟩
+  have hwB : B.getD 0 (0, 0) ∈ chainOf B mB :=
+    List.mem_map.mpr ⟨0, mem_maskIdx.mpr ⟨hB, hfirstB⟩, rfl⟩
+  show (A ++ B).map (fun p => interp1 (chainOf (A ++ B) (mA ++ mB)) p.1)
+      = A.map (fun p => interp1 (chainOf A mA) p.1) ++ B.map (fun p => interp1 (chainOf B mB) p.1)
+  rw [chainOf_append A B mA mB hlen, List.map_append]
+  congr 1
+  · apply List.map_congr_left
+    intro p hp
+    apply interp1_append_left _ _ hs
+    refine ⟨_, hwA, ?_⟩
+    obtain ⟨i, hi, e⟩ := List.mem_iff_getElem.mp hp
+    have := xinc_F hxA
+    rcases Nat.eq_or_lt_of_le (show i ≤ A.length - 1 by omega) with h | h
+    · subst e; rw [← h]; simp [hi]
+    · have := this i (A.length - 1) h (by omega)
+      subst e
+      simpa [px, hi] using le_of_lt this
+  · apply List.map_congr_left
+    intro p hp
+    apply interp1_append_right _ _ hs
+    refine ⟨_, hwB, ?_⟩
+    obtain ⟨i, hi, e⟩ := List.mem_iff_getElem.mp hp
+    have := xinc_F hxB
+    rcases Nat.eq_zero_or_pos i with h | h
+    · subst e; subst h; simp [hi]
+    · have := this 0 i h hi
+      subst e
+      simpa [px, hi, hB] using le_of_lt this
+
 end PbVerif.Lemmas.Hull
